@@ -290,7 +290,7 @@ pub proof fn lemma_diag_pull_is_jacobian_t(d: DV, z: Seq<real>, g: Seq<real>, j:
 pub struct IV { pub vecs: Seq<Seq<real>>, pub vs: Seq<real>, pub vsi: Seq<real>, pub mu: Seq<real>, pub ldc: real }
 pub struct LV { pub d: DV, pub inner: Option<IV>, pub logdet: real }
 pub open spec fn iv<M: Math>(n: InnerMatrix<M>) -> IV {
-    IV { vecs: M::evecs(&n.vecs), vs: M::evals(&n.vals_sqrt), vsi: M::evals(&n.vals_sqrt_inv), mu: M::vv(&n.mu), ldc: n.logdet_contribution.r() }
+    IV { vecs: M::eigvecs_v(&n.vecs), vs: M::eigvals_v(&n.vals_sqrt), vsi: M::eigvals_v(&n.vals_sqrt_inv), mu: M::vv(&n.mu), ldc: n.logdet_contribution.r() }
 }
 pub open spec fn lv<M: Math>(t: LowRankMassMatrix<M>) -> LV {
     LV { d: dv(t.diag), inner: match t.inner { Some(n) => Some(iv(n)), None => None }, logdet: t.logdet.r() }
